@@ -37,6 +37,7 @@ def main(argv=None):
     ap.add_argument('--jobs', type=int, default=int(os.environ.get('VERIF_JOBS', '16')))
     args = ap.parse_args(argv)
     seed = int(os.environ.get('VERIF_SEED', '0'))
+    os.environ['VERIF_TIER'] = args.tier
     sys.path[:0] = [REPO, VERIF]
     os.environ.setdefault('T4GC_VERIF', '1')
     import t4_geom_convert
